@@ -9,6 +9,7 @@ from typing_extensions import TypeAlias
 from pane.classes import PaneBase, field
 from pane.converters import UnionConverter
 from pane.errors import ErrorNode
+from pane.util import _same_spelling
 from pane.convert import Convertible, DataType, into_data, ConverterHandlers
 from pane.annotations import (
     Positive, NonNegative, Negative, NonPositive, Finite,
@@ -83,6 +84,17 @@ class ValueOrList(t.Generic[T]):
     def __init__(self, val: t.Union[T, t.List[T]], _is_val: bool):
         self._inner = val
         self._is_val = _is_val
+
+    def __class_getitem__(cls, params: t.Any) -> t.Any:
+        # `typing` caches subscriptions by equality of the arguments, and unions are equal whatever the order of their
+        # members: ``ValueOrList[Union[int, float]]`` may come back as the ``ValueOrList[Union[float, int]]`` made earlier.
+        # The order matters to us: hand out an alias with the arguments as written
+        alias = super().__class_getitem__(params)  # type: ignore
+        args = params if isinstance(params, tuple) else (params,)
+        if len(t.get_args(alias)) == len(args) and hasattr(alias, 'copy_with') \
+                and not all(_same_spelling(x, y) for (x, y) in zip(t.get_args(alias), args)):
+            return alias.copy_with(args)
+        return alias
 
     @classmethod
     def from_val(cls, val: T) -> ValueOrList[T]:
